@@ -49,6 +49,23 @@ def class_level_default():
     return d if isinstance(d, list) else None
 
 
+_MODE = None
+
+
+def array_default_mode():
+    """which of the two behaviours the library under test has for a never-assigned array field:
+    'shared' — every read returns one class-level list (the code as it is), 'fresh' — every read returns a new list
+    (repaired get_field_value).  Anything else is reported as 'fresh' and will show up as a correspondence difference."""
+    global _MODE
+    if _MODE is None:
+        st, ty, _itch, _fix = lib()
+        rec = type(f'C18probe{os.getpid()}', (st.Record,), {'Fields': [st.Field('probe_items', st.Array(ty.Byte))]})
+        a, b = rec(), rec()
+        x, y = a.probe_items, a.probe_items
+        _MODE = 'shared' if (x is y and x is b.probe_items) else 'fresh'
+    return _MODE
+
+
 def reset_globals():
     """every history starts from import-time state of the one piece of class-level mutable data"""
     d = class_level_default()
@@ -386,7 +403,7 @@ def op_target(op, n_before):
 
 # ------------------------------------------------------------------ s-expressions of specs / ops / results
 def spec_sx(spec):
-    return sx(['schema'] + spec)
+    return sx(['schema', array_default_mode()] + spec)
 
 
 def ops_sx(ops):
@@ -840,9 +857,19 @@ def shrink(spec, ops, finding, world=None, test=fails_like):
     return ops, best
 
 
+def registered_ids():
+    """ids the coordinator has in known_findings.json, with any status (a registered entry supersedes the local one)"""
+    path = os.path.join(VERIF, 'known_findings.json')
+    try:
+        return {e.get('id') for e in json.load(open(path)).get('findings', [])}
+    except Exception:  # noqa
+        return set()
+
+
 def known_hit(ctx, replay):
     from common import load_known, matches_known
-    for k in KNOWN_LOCAL + load_known(ctx.prop):
+    reg = registered_ids()
+    for k in [k for k in KNOWN_LOCAL if k['id'] not in reg] + load_known(ctx.prop):
         if matches_known(k, replay):
             if k['id'] not in [x[0] for x in ctx.known_hits]:
                 ctx.known_hits.append((k['id'], k['what']))
@@ -927,7 +954,7 @@ def load_corpus():
 
 
 def case_of(rep):
-    spec = typed(parse_sx(rep['spec'])[0])[1:]
+    spec = typed(parse_sx(rep['spec'])[0])[2:]      # (schema <mode> class*): the mode is probed, not replayed
     ops = typed(parse_sx(rep['ops'])[0])
     return spec, ops
 
@@ -942,6 +969,14 @@ def run(ctx):
                        'records; ITCH-style application with its own registry) and FIX message types (header/body/trailer segments, '
                        'repeating groups, nested groups); operations are chosen by looking at the live instances; a quarter of the binary '
                        'histories may mutate a list obtained from a never-assigned array field; distinct = distinct (schema, history)')
+    mode = array_default_mode()
+    ctx.notes.append(
+        f'library probed: a never-assigned array field reads as {"the one class-level list (code as it is)" if mode == "shared" else "a new list on every read (repaired get_field_value)"}; '
+        f'the model is asked with `(schema {mode} …)`, so the theorems that apply are '
+        + ('the `_partial` ones (hypothesis: no in-place mutation of a list obtained by reading a never-assigned array field) plus Witness/C18.lean'
+           if mode == 'shared' else 'the full-strength ones (C18_frame, C18_encode_frame, C18_observe_pure: every history)'))
+    ctx.notes.append('a binary message is identified with its body record and a FIX GroupContainer with its groups list; references held by the '
+                     'caller across operations are covered by C18_read_owned + C18_held_reference_frame, not by the generated histories')
     # ---- corpus and the Lean witness first
     cases = []
     for rep in load_corpus():
@@ -951,7 +986,7 @@ def run(ctx):
         wt = ctx.driver.ask(['heap.witness'])[0]
         if wt != 'bad-request':
             p = typed(parse_sx(wt))
-            cases.append(('bin', p[0][1:], p[1]))
+            cases.append(('bin', p[0][2:], p[1]))
             ctx.notes.append('the history of Witness/C18.lean (printed by the driver from the Lean term) was replayed on the implementation')
     for proto, spec, ops in cases:
         ctx.case(('corpus', spec_sx(spec), ops_sx(ops)), nontrivial=True)
